@@ -151,7 +151,9 @@ fn sized_builder<T: Payload>(stage: u8, phase: u8, via_static: bool) -> Result<(
 
 /// header+slice builder. stage: 0 = dropped before header, 1 = dropped after header,
 /// 2 + k = element constructor panics at index k (k == n completes).
-fn swh_builder<H: Payload, E: Payload>(n: usize, stage: usize, phase: u8) -> Result<(), String> {
+/// via: 0 = built for <H, E>; 1 = built for <Static<H>, E> then unwrap_static_header; 2 = built for
+/// <H, Static<E>>, unwrap_static_element after the header; 3 = both.
+fn swh_builder<H: Payload, E: Payload>(n: usize, stage: usize, phase: u8, via: u8) -> Result<(), String> {
     in_window(|| {
         let arena = arena_in_phase(phase)?;
         let b = before(&arena);
@@ -159,27 +161,41 @@ fn swh_builder<H: Payload, E: Payload>(n: usize, stage: usize, phase: u8) -> Res
         let calls = std::cell::Cell::new(0usize);
         let r = catch_unwind(AssertUnwindSafe(|| {
             arena.mutate(|mc, _| -> bool {
-                let bld = talloc::subject(|| GcSliceWithHeaderBuilder::<H, E>::new(n));
-                if stage == 0 {
-                    drop(bld);
-                    return false;
+                macro_rules! rest {
+                    ($bld:expr, $($unwrap_elem:ident)?) => {{
+                        let bld = $bld;
+                        if stage == 0 {
+                            drop(bld);
+                            return false;
+                        }
+                        let sb = bld.write_header(H::new())$(.$unwrap_elem())?;
+                        if stage == 1 {
+                            drop(sb);
+                            return false;
+                        }
+                        let k = stage - 2;
+                        let g = sb.write_slice_with(mc, |i| {
+                            assert_eq!(i, calls.get(), "constructor called out of order");
+                            calls.set(calls.get() + 1);
+                            if i == k {
+                                std::panic::resume_unwind(Box::new(7u8));
+                            }
+                            E::new()
+                        });
+                        assert_eq!(g.slice.len(), n);
+                        // (the completed value stays valid for the rest of the callback: more blocks of the
+                        // same size are requested while it is alive)
+                        let mut again = GcSliceWithHeaderBuilder::<H, E>::new(n);
+                        assert_ne!(Gc::as_ptr(g) as *const u8 as usize, again.header_ptr() as usize, "a later builder was given the block of a live allocation");
+                        true
+                    }};
                 }
-                let sb = bld.write_header(H::new());
-                if stage == 1 {
-                    drop(sb);
-                    return false;
+                match via {
+                    0 => rest!(talloc::subject(|| GcSliceWithHeaderBuilder::<H, E>::new(n)),),
+                    1 => rest!(talloc::subject(|| GcSliceWithHeaderBuilder::<Static<H>, E>::new(n).unwrap_static_header()),),
+                    2 => rest!(talloc::subject(|| GcSliceWithHeaderBuilder::<H, Static<E>>::new(n)), unwrap_static_element),
+                    _ => rest!(talloc::subject(|| GcSliceWithHeaderBuilder::<Static<H>, Static<E>>::new(n).unwrap_static_header()), unwrap_static_element),
                 }
-                let k = stage - 2;
-                let g = sb.write_slice_with(mc, |i| {
-                    assert_eq!(i, calls.get(), "constructor called out of order");
-                    calls.set(calls.get() + 1);
-                    if i == k {
-                        std::panic::resume_unwind(Box::new(7u8));
-                    }
-                    E::new()
-                });
-                assert_eq!(g.slice.len(), n);
-                true
             })
         }));
         let completed = matches!(r, Ok(true));
@@ -487,9 +503,10 @@ pub fn cases(thorough: bool) -> Vec<Case> {
         sized!(A1<3>);
         macro_rules! swh {
             ($h:ty, $e:ty) => {
-                for n in 0..=nmax { for stage in 0..=(n + 2) {
-                    v.push((format!("swh/{}/{}/n{}/stage{}/phase{}", stringify!($h), stringify!($e), n, stage, phase), Box::new(move || swh_builder::<$h, $e>(n, stage, phase))));
-                } }
+                for n in 0..=nmax { for stage in 0..=(n + 2) { for via in 0..4u8 {
+                    if via > 0 && n > 3 { continue; }
+                    v.push((format!("swh/{}/{}/n{}/stage{}/phase{}{}", stringify!($h), stringify!($e), n, stage, phase, ["", "/static_header", "/static_element", "/static_both"][via as usize]), Box::new(move || swh_builder::<$h, $e>(n, stage, phase, via))));
+                } } }
             };
         }
         swh!(A8<8>, A8<8>);
@@ -558,7 +575,7 @@ pub fn run(thorough: bool, only: Option<&str>) -> GridOut {
     GridOut {
         evaluations: n,
         nontrivial,
-        rule: "full grid: builder kind (GcBuilder, GcBuilder<Static>.unwrap_static, GcSliceBuilder (+Static), GcSliceWithHeaderBuilder, GcStrBuilder, copy_slice, copy_str) x abandonment point (fresh, after header, constructor panic at every index k <= n, completed) x element kind (destructor token, zero-sized, over-aligned 64, odd size) x n <= 4 x arena phase (Sleeping, Marking, Marked, Sweeping) x copy source length n-1 / n / n+1; copy_slice behind a header for 7 header layouts x Copy element alignments 1..64 (padding between header and slice): elements land aligned where the slice reads them, header bytes untouched. Non-trivial = at least one part initialised".into(),
+        rule: "full grid: builder kind (GcBuilder, GcBuilder<Static>.unwrap_static, GcSliceBuilder (+Static), GcSliceWithHeaderBuilder (+Static header / Static elements / both, unwrapped), GcStrBuilder, copy_slice, copy_str) x abandonment point (fresh, after header, constructor panic at every index k <= n, completed) x element kind (destructor token, zero-sized, over-aligned 64, odd size) x n <= 4 x arena phase (Sleeping, Marking, Marked, Sweeping) x copy source length n-1 / n / n+1; copy_slice behind a header for 7 header layouts x Copy element alignments 1..64 (padding between header and slice): elements land aligned where the slice reads them, header bytes untouched. Non-trivial = at least one part initialised".into(),
         samples: names.iter().step_by((names.len() / 6).max(1)).take(6).map(|s| J::Str(s.clone())).collect(),
         violations: viol.iter().map(|(c, e)| J::obj().with("case", c.as_str()).with("message", e.as_str())).collect(),
         extra: J::obj().with("exhaustive", only.is_none()),
